@@ -23,6 +23,7 @@ TOK = [
     ('finish_attribute_derive', 6, 'C08 C07 C12'), ('finish_attribute_nested', 8, 'C08 C07 C12'),
     ('finish_attribute_mismatch', 5, 'C08 C07 C12'), ('finish_attribute_mismatch_curly', 5, 'C08 C07 C12'),
     ('finish_attribute_wrong_final', 5, 'C08 C07 C12'), ('finish_attribute_multibyte', 8, 'C08 C07 C12'),
+    ('finish_attribute_arrow', 5, 'C08 C07 C12'), ('finish_attribute_angles_crossed', 6, 'C08 C07 C12'),
     ('flush_attribute_at_end_of_input_bare', 4, 'C08 C07 C12'), ('flush_attribute_at_end_of_input_open_paren', 4, 'C08 C07 C12'),
     ('flush_attribute_at_end_of_input_text', 4, 'C08 C07 C12'),
     ('step_ident_twin_must_fail', 15, 'C08 C07 C12 C16'),
@@ -72,7 +73,7 @@ def relevant_failures(prop, r):
             if tag in ('C12', 'C08', None):
                 out.append(f)
         elif prop == 'C16':
-            if tag == 'C16':
+            if tag == 'C16' or (tag in ('C09', None) and 'span::' in r['name']):
                 out.append(f)
         elif prop == 'C09':
             if tag in ('C09', None):
@@ -126,6 +127,11 @@ def run_tok_property(prop, tier, extra_runs=None, level='model_checking'):
         fold(prop, tier, R, run_dollar(tier), stats, samples, 'unit')
     if prop == 'C12':
         fold(prop, tier, R, run_cst(tier), stats, samples, 'unit')
+    if prop == 'C16':
+        # "an error remains the same error with its positions shifted accordingly": the parse-error span / text
+        # conversion with non-ASCII text in front of the token (span harnesses, shared with C09)
+        import checks_total
+        fold(prop, tier, R, checks_total.run_span(tier), stats, samples, 'unit')
     extra_cov = {}
     if extra_runs:
         extra_cov = extra_runs(R, tier)
